@@ -290,6 +290,8 @@ class Program:
                     shared = import_private_helpers(tree, raw, PKG)
                     shared += import_private_methods(tree, raw, PKG, p.stem)
                     self.normalised[p.stem] = normalise_module(tree)
+                    # constant fields of module-level helper objects that inlining has brought into the codec methods (`LABEL.size`)
+                    import_private_methods(tree, raw, PKG, p.stem, fold_only=True)
                     if shared:
                         self.normalised[p.stem]["helpers_copied_from_other_modules"] = shared
                 except RecursionError as e:  # pragma: no cover
